@@ -653,3 +653,34 @@ Proof.
   intros O Hs. unfold resid. revert y. induction x as [|a x IH]; intros [|b y]; cbn [map combine tsum fst snd]; rnum; try ring.
   rewrite IH, resid_point_equivariant by assumption. ring.
 Qed.
+
+
+(* ---------- the returned similarity maps the centroid of x onto the centroid of y ---------- *)
+Theorem umeyama_maps_centroid svd eps ws (x y : list V3R) r t c :
+  umeyama svd eps ws x y = Some (r, t, c) -> apply_sim c r t (mean x) = mean y.
+Proof.
+  unfold umeyama. destruct (negb (Nat.eqb _ _)); [discriminate|].
+  destruct (svd (cov_xy x y)) as [[u d] v]. destruct (negb (rank_ok eps d)); [discriminate|].
+  intros H. injection H as <- <- <-. unfold apply_sim.
+  set (a := vscale _ _). destruct a, (mean y); v3eq.
+Qed.
+Lemma vsum_apply_sim c (r : M3R) t (x : list V3R) :
+  @vsum R _ (map (apply_sim c r t) x) = vadd (vscale c (mv r (@vsum R _ x))) (vscale (INR (length x)) t).
+Proof.
+  induction x as [|a x IH].
+  - cbn [map vsum length]. destruct t; cbn [INR]; lin_unfold; rnum; f_equal; ring.
+  - change (vadd (apply_sim c r t a) (@vsum R _ (map (apply_sim c r t) x)) =
+            vadd (vscale c (mv r (vadd a (@vsum R _ x)))) (vscale (INR (S (length x))) t)).
+    rewrite IH, S_INR, mv_vadd. unfold apply_sim.
+    destruct (mv r a), (mv r (@vsum R _ x)), t; v3eq.
+Qed.
+(* hence the mean of the aligned points is the mean of y (non-empty input) *)
+Theorem umeyama_aligned_mean svd eps ws (x y : list V3R) r t c : x <> [] ->
+  umeyama svd eps ws x y = Some (r, t, c) -> mean (map (apply_sim c r t) x) = mean y.
+Proof.
+  intros Hx H. rewrite <- (umeyama_maps_centroid svd eps ws x y r t c H).
+  unfold mean, ncount. rewrite map_length, vsum_apply_sim. rnum. rewrite <- INR_IZR_INZ.
+  assert (Hn : INR (length x) <> 0) by (destruct x as [|a0 x0]; [contradiction|cbn [length]; rewrite S_INR; pose proof (pos_INR (length x0)); lra]).
+  unfold apply_sim. rewrite mv_vscale.
+  destruct (mv r (@vsum R _ x)), t. lin_unfold. f_equal; field; exact Hn.
+Qed.
